@@ -854,6 +854,10 @@ def run_build(run, model, t, kind, kinds=(), tpls=None, expect_none=()):
     raw = bytes.fromhex(built['raw'])
     parsed = impl_observe(raw)
     bad = monitor_build(t, built, parsed)
+    if not bad and txobj is not None:
+        bad = monitor_positions(txobj)
+        if bad:
+            bad += ' (inputs and outputs were added by two add_inputs / add_outputs calls each)'
     if bad:
         if tpls and any(tpls) and txobj is not None:
             wrong = [k for k, o in enumerate(txobj.outputs) if o.script.source.hex() != t['outs'][k][1]]
@@ -985,6 +989,31 @@ def read_built(tx):
     return out
 
 
+def monitor_positions(tx, want_id=None):
+    """every input / output of a built transaction knows its own index, whatever number of add_inputs / add_outputs
+    calls put it there: position == index in the list, Output.id == '<txid>:<index>' (what Input.spend and the database
+    use as the outpoint), all ids distinct, and the same output parsed back from tx.raw reports the same position and id"""
+    for k, txi in enumerate(tx.inputs):
+        if txi.position != k:
+            return f'built input {k} says position {txi.position}'
+    try:
+        txid = tx.id
+    except Exception:
+        return None
+    if want_id is not None and txid != want_id:
+        return None                                  # reported elsewhere
+    ids = []
+    for k, txo in enumerate(tx.outputs):
+        if txo.position != k:
+            return f'built output {k} says position {txo.position} (outpoint id {txo.id}); parsed back it is {txid}:{k}'
+        if txo.id != f'{txid}:{k}' or txo.ref.id != f'{txid}:{k}' or txo.ref.position != k:
+            return f'built output {k} has outpoint id {txo.id} / ref {txo.ref.id}, expected {txid}:{k}'
+        ids.append(txo.id)
+    if len(set(ids)) != len(ids):
+        return 'two outputs of the built transaction share one outpoint id'
+    return None
+
+
 def check_current(run, model, case, tx, label, signature=None):
     """monitor + correspondence on the object's present state; returns False when something was reported"""
     cur = current_fields(tx)
@@ -999,6 +1028,10 @@ def check_current(run, model, case, tx, label, signature=None):
         bad = monitor_build(cur, built, parsed)
         if bad:
             bad = f'{label}: {bad} (fields taken from the Transaction object as it is now)'
+        else:
+            bad = monitor_positions(tx)
+            if bad:
+                bad = f'{label}: {bad}'
     if bad:
         run.violation(case, bad, signature=signature or {'op': case['op'], 'case': case})
         return False
@@ -1407,6 +1440,8 @@ def check_linked(run, model, case, tx_a, tx_b, links, label):
     bad = None
     if tx_a.id != a_id:
         bad = f'{label}: A.id is not the reversed double SHA-256 of the reference encoding of A as it is now'
+    elif monitor_positions(tx_a):
+        bad = f'{label}: A: ' + monitor_positions(tx_a)
     elif isinstance(built['raw'], dict):
         bad = f'{label}: serialising B raised {built["raw"]["err"]}'
     else:
@@ -1440,7 +1475,16 @@ def run_link(run, model, case):
     a, b = case['a'], case['b']
     tx_a = Transaction(version=a['version'], locktime=a['locktime'])
     tx_a.add_inputs([mk_input(r) for r in a['ins']])
-    tx_a.add_outputs([Output(amt, OutputScript(bytes.fromhex(scr))) for amt, scr in a['outs']])
+    a_outs = [Output(amt, OutputScript(bytes.fromhex(scr))) for amt, scr in a['outs']]
+    split = case.get('a_split')
+    if split is None:
+        tx_a.add_outputs(a_outs)
+    else:                                          # as Transaction.create: requested outputs first, change output later
+        tx_a.add_outputs(a_outs[:split])
+        if case['touch_a']:
+            _touch(tx_a)
+        tx_a.add_outputs(a_outs[split:])
+        run.count('link:A-outputs-added-by-two-calls')
     if case['touch_a']:
         _touch(tx_a)
     linked = []
@@ -1507,7 +1551,12 @@ def gen_link(rng):
                 changes.append(['edit', {'kind': 'out_source', 'i': rng.choice(free), 'value': rbytes(rng, rng.choice([0, 3, 25])).hex()}])
             else:
                 changes.append(['edit', {'kind': 'version', 'value': g32(rng)}])
-    return {'op': 'link', 'a': a, 'b': b, 'spend': spend, 'at': rng.choice([0, 0, 1, 2]),
+    a_split = rng.randrange(0, len(a['outs']) + 1) if rng.random() < 0.7 else None
+    if a_split is not None and a_split < len(a['outs']) and not any(sp[0] >= a_split for sp in spend):
+        last = len(a['outs']) - 1                  # make sure an output of the SECOND call (the 'change') is spent
+        a['outs'][last][1] = p2pkh
+        spend = [sp for sp in spend if sp[0] != last] + [[last, 'spend', '', U32]]
+    return {'op': 'link', 'a': a, 'b': b, 'spend': spend, 'a_split': a_split, 'at': rng.choice([0, 0, 1, 2]),
             'touch_a': rng.random() < 0.7, 'touch_b': rng.random() < 0.5, 'changes': changes}
 
 
@@ -1526,11 +1575,13 @@ def run_chain_flow(run, model, env, case):
                            'outs': [[10 * COIN, ref_script('pay_pubkey_hash', {'pubkey_hash': h0}).hex()]]})
     coin = Transaction(coin_raw, height=10)
     n_out = rng.choice([1, 2, 3])
-    tx_a = Transaction().add_inputs([Input.spend(coin.outputs[0])]).add_outputs(
-        [Output.pay_pubkey_hash(rng.randrange(10 ** 6, COIN), rng.choice([h0, h1])) for _ in range(n_out)])
+    a_outs = [Output.pay_pubkey_hash(rng.randrange(10 ** 6, COIN), rng.choice([h0, h1])) for _ in range(n_out)]
+    tx_a = Transaction().add_inputs([Input.spend(coin.outputs[0])]).add_outputs(a_outs[:1]).add_outputs(a_outs[1:])
     if rng.random() < 0.7:
         _touch(tx_a)
     picks = rng.sample(range(n_out), rng.randrange(1, n_out + 1))
+    if n_out - 1 not in picks:
+        picks.append(n_out - 1)                    # the output added by the second add_outputs call (the change)
     tx_b = Transaction().add_inputs([Input.spend(tx_a.outputs[i]) for i in picks]).add_outputs(
         [Output.pay_pubkey_hash(rng.randrange(1000, 10 ** 6), h1)])
     if rng.random() < 0.5:
@@ -1812,7 +1863,8 @@ def main(run):
         'insert_transaction and read back with get_transaction / get_txos; parsed outputs built from template values are '
         're-interpreted (template, values, claim predicates; payloads up to 70001 bytes); link: B takes Input.spend(A.outputs[i]) / A.outputs[i].ref, then A changes (output or '
         'input added, field edited, signed by the real account), then B is serialised: outpoint hash and txo_ref.id must name A\'s '
-        'current id per the reference encoder; outputs of library-built transactions are built from template VALUES while the '
+        'current id per the reference encoder; inputs/outputs are added by several add_* calls (A\'s second batch is spent by B) and every '
+        'built item must report position == index and Output.id == txid:index, equal to what the parsed bytes give; outputs of library-built transactions are built from template VALUES while the '
         'expected script comes from an independent script builder (one-byte elements 0x00..0x11 included); raw: upstream fixtures, segwit encodings (reference encoder and extracted '
         'model encoder), every truncation and every single-byte overwrite (0/fd/ff) of small transactions, structural mutations (size widening incl. >= 2^63, '
         'marker/flag games, cut-outs, trailing bytes) and random bytes -> Transaction(raw) fields / error class / '
